@@ -27,8 +27,8 @@ let dump_doc (d : xdoc) : string =
   Buffer.contents b
 
 let unhs (s : string) : BinNums.coq_N list =
-  if String.length s = 0 || s.[0] <> '=' then failwith ("bad string token " ^ s)
-  else bytes_of_hex (String.sub s 1 (String.length s - 1))
+  if Stdlib.String.length s = 0 || s.[0] <> '=' then failwith ("bad string token " ^ s)
+  else bytes_of_hex (Stdlib.String.sub s 1 (Stdlib.String.length s - 1))
 let unho (s : string) : BinNums.coq_N list option = if s = "-" then None else Some (unhs s)
 
 (* tokens -> tree *)
